@@ -7,7 +7,9 @@
 #      output file is not rewritten when nothing changed;
 #  (2) planted mutations on a private copy of $REPO/lib (under mktemp -d, removed on exit)
 #      change the census exactly as predicted -- and a behaviour-preserving edit does not;
-#  (3) internal errors (clang failure, missing source) give a non-zero exit status.
+#  (3) internal errors (clang failure, missing source) give a non-zero exit status;
+#  (4) synthetic C and C++ files (tools/census_cases/) exercise the write / escape /
+#      const-ness classification and the site detection far more than the library does.
 #
 # Exit status 0 iff every assertion holds.  Never writes to $REPO or to coq/gen.
 set -u
@@ -92,6 +94,10 @@ before=$(stat -c '%i %y' "$WORK/base.v")
 sleep 0.05
 if gen "$SRC_REPO" base && [ "$(stat -c '%i %y' "$WORK/base.v")" == "$before" ] && grep -q ' unchanged$' "$WORK/base.log"
 then ok "unchanged sources do not rewrite Census.v"; else bad "unchanged sources do not rewrite Census.v"; fi
+# the fast loader (skips system-header blocks of the JSON) agrees with a full parse
+if CENSUS_FULL_PARSE=1 REPO="$SRC_REPO" python3 "$GEN" --out "$WORK/full.v" >"$WORK/full.log" 2>&1 \
+   && cmp -s "$WORK/base.v" "$WORK/full.v"
+then ok "fast JSON loader agrees with full parse"; else bad "fast JSON loader agrees with full parse"; fi
 
 echo "== (2) planted mutations"
 # (a) new writable static object with a writer
@@ -155,6 +161,9 @@ subst "$WORK/m/lib/util.c" '^void \*libconfig_malloc' '/* a comment\n   spanning
 gen "$WORK/m" e2
 delta e2 "(e2) comment + local variable, lines shifted: census unchanged" ""
 if cmp -s "$WORK/base.v" "$WORK/e2.v"; then bad "(e2) line numbers in Census.v follow the source"; else ok "(e2) line numbers in Census.v follow the source"; fi
+if CENSUS_FULL_PARSE=1 REPO="$WORK/m" python3 "$GEN" --out "$WORK/e2full.v" >"$WORK/e2full.log" 2>&1 \
+   && cmp -s "$WORK/e2.v" "$WORK/e2full.v"
+then ok "(e2) fast JSON loader agrees with full parse"; else bad "(e2) fast JSON loader agrees with full parse"; fi
 
 echo "== (3) internal errors are fatal"
 fresh
@@ -165,6 +174,30 @@ fresh
 rm "$WORK/m/lib/util.c"
 if gen "$WORK/m" x2; then bad "missing source gives non-zero exit"; else ok "missing source gives non-zero exit"; fi
 if gen "$WORK/nonexistent" x3; then bad "missing repo gives non-zero exit"; else ok "missing repo gives non-zero exit"; fi
+
+echo "== (4) synthetic classification cases"
+# unit <file> <c|c++> <tag>: analyse one stand-alone file, rendering to $WORK/<tag>.txt
+unit() {
+  python3 - "$HERE" "$WORK/u/lib" "$1" "$2" >"$WORK/$3.txt" 2>"$WORK/$3.log" <<'PYUNIT'
+import sys
+sys.path.insert(0, sys.argv[1])
+import gen_census as g
+r = g.analyse((sys.argv[2], sys.argv[3], sys.argv[4] == "c++"))
+sys.stdout.write(g.render_text(g.merge([r])))
+PYUNIT
+}
+mkdir -p "$WORK/u/lib"
+cp "$HERE/census_cases/t.c" "$HERE/census_cases/t.c++" "$WORK/u/lib/"
+if unit t.c c u_c && diff -u "$HERE/census_cases/t_c.expected" "$WORK/u_c.txt" >"$WORK/u_c.diff"
+then ok "C cases (writes, escapes, const-ness, sites)"
+else bad "C cases (writes, escapes, const-ness, sites)"; sed 's/^/    /' "$WORK/u_c.diff" "$WORK/u_c.log"; fi
+if CENSUS_FULL_PARSE=1 unit t.c c u_c_full && cmp -s "$WORK/u_c.txt" "$WORK/u_c_full.txt"
+then ok "C cases: fast JSON loader agrees with full parse"; else bad "C cases: fast JSON loader agrees with full parse"; fi
+if unit t.c++ c++ u_cxx && diff -u "$HERE/census_cases/t_cxx.expected" "$WORK/u_cxx.txt" >"$WORK/u_cxx.diff"
+then ok "C++ cases (members, references, new, namespaces)"
+else bad "C++ cases (members, references, new, namespaces)"; sed 's/^/    /' "$WORK/u_cxx.diff" "$WORK/u_cxx.log"; fi
+if CENSUS_FULL_PARSE=1 unit t.c++ c++ u_cxx_full && cmp -s "$WORK/u_cxx.txt" "$WORK/u_cxx_full.txt"
+then ok "C++ cases: fast JSON loader agrees with full parse"; else bad "C++ cases: fast JSON loader agrees with full parse"; fi
 
 rm -rf "$WORK"
 trap - EXIT
